@@ -24,9 +24,9 @@ import (
 	"os"
 	"os/exec"
 	"path/filepath"
-	"strconv"
 	"runtime"
 	"sort"
+	"strconv"
 	"strings"
 	"sync"
 	"sync/atomic"
@@ -619,7 +619,7 @@ func c10shExplain(ctx *Ctx, res *Result, input, family string) {
 		res.AddViolation(Violation{Key: "C10/sh/correspondence/" + name,
 			What:       fmt.Sprintf("model and implementation disagree on %q (the partition law %s on the implementation's output): impl %s, model %s", input, map[bool]string{true: "holds", false: "fails"}[holds], is[i], ms[i]),
 			FoundInput: false, Size: 1 + len(input),
-			Replay:     rep(map[string]any{"impl": is[i], "model": ms[i], "broken": broken, "spec_holds_on_impl": holds})})
+			Replay: rep(map[string]any{"impl": is[i], "model": ms[i], "broken": broken, "spec_holds_on_impl": holds})})
 	}
 }
 
@@ -857,7 +857,7 @@ func c10shCrossCheck(ctx *Ctx, res *Result, inputs []string) {
 			msg = msg[:600]
 		}
 		res.AddViolation(Violation{Key: "C10/sh/extraction-differs-from-vm_compute",
-			What: "coqc (vm_compute) does not reproduce the extracted oracle's answers on the sampled cases: " + strings.Join(strings.Fields(msg), " "),
+			What:   "coqc (vm_compute) does not reproduce the extracted oracle's answers on the sampled cases: " + strings.Join(strings.Fields(msg), " "),
 			Replay: map[string]any{"broken": "cross-check extracted OCaml model = vm_compute", "coqc": msg}})
 		return
 	}
